@@ -99,8 +99,11 @@ def run_profile(tid, ballots, rng):
             if rng.random() < 0.5:
                 Contest.tally({"con": con}, cvrs[: rng.randint(1, len(cvrs))], enforce_rules=rng.random() < 0.5)
             Contest.tally({"con": con}, cvrs, enforce_rules=enforce)
-            full[key] = con.tally
-            return {c: int(con.tally[c]) for c in CANDS}
+            # the contest's own tally object as a plain dict: every marked option (listed or not) and an explicit 0 for
+            # each listed candidate nobody marked (an empty tally would read as "no tally given")
+            counts = {c: int(con.tally.get(c, 0)) for c in CANDS}
+            full[key] = {**{o: int(v) for o, v in dict(con.tally).items()}, **counts}
+            return counts
         rec[key] = guard(key, t, default={c: -1 for c in CANDS})
     # plurality pairs (built through winner sets of size 1 and 2, the union covers every ordered pair)
     seen = {}
